@@ -100,10 +100,19 @@ def cached(key, fn):
     v = fn()
     json.dump(v, open(p + ".tmp", "w"))
     os.replace(p + ".tmp", p)
+    # keep the cache small: the 40 most recent results
+    try:
+        fs = sorted((os.path.join(d, f) for f in os.listdir(d) if f.endswith(".json")), key=os.path.getmtime)
+        for old in fs[:-40]:
+            os.remove(old)
+    except OSError:
+        pass
     return v
 
 
 def both_sides(key, cases, mode, extra_env=None):
+    names = [case_name(c) for c in cases]
+    assert len(set(names)) == len(names), "duplicate case names: " + str([n for n in set(names) if names.count(n) > 1][:5])
     def go():
         real = run.run_sharded(cases, mode, "real", extra_env=extra_env)
         model = run.run_sharded(cases, mode, "model")
@@ -176,7 +185,7 @@ def suite_seq(pid, tier, seed):
     brng = random.Random(seed * 7919 + 5)
     cases += [gen.bulk_case(f"bulk{i}", brng) for i in range(8 if tier == "quick" else 64)]
     if tier != "quick":
-        cases += gen.exhaustive_histories(4, n=2) + gen.exhaustive_histories(3, n=1)
+        cases += gen.exhaustive_histories(4, n=2) + [c.replace("case x", "case y", 1) for c in gen.exhaustive_histories(3, n=1)]
     real, model = both_sides(f"seq-{tier}-{seed}-{n}", cases, "plain")
     R, M = run.by_case(real), run.by_case(model)
     parts = spec.get("corr", {"ret"})
@@ -209,7 +218,8 @@ def suite_crash(pid, tier, seed):
     cases += gen.crash_corpus()
     if tier != "quick":
         # every history of length <= 2 over the small alphabet, killed at every call
-        cases += [c.replace("case x", "case cx", 1) for c in gen.exhaustive_histories(2, n=1, tail=False) + gen.exhaustive_histories(2, n=2, sync=0, tail=False)]
+        cases += [c.replace("case x", "case cx", 1) for c in gen.exhaustive_histories(2, n=1, tail=False)]
+        cases += [c.replace("case x", "case cy", 1) for c in gen.exhaustive_histories(2, n=2, sync=0, tail=False)]
     real, model = both_sides(f"crash-{tier}-{seed}-{n}", cases, "crash-all")
     R, M = headers_split(real), headers_split(model)
     Rn = {h.split()[1]: (h, v) for h, v in R.items()}
@@ -408,7 +418,7 @@ def two_segment_bases(rng, count):
 # ------------------------------------------------------------------------------- damage (C10)
 def suite_damage(pid, tier, seed):
     spec = PROPS[pid]
-    n = 10 if tier == "quick" else 300
+    n = 10 if tier == "quick" else 60          # every byte offset and every bit of every record: ~1000 opens per case
     rng = random.Random(seed * 1000003 + 47)
     cases = [gen.damage_case(f"d{i}", rng, length=rng.choice([3, 4, 5, 6])) for i in range(n)]
     cases += two_segment_bases(rng, max(4, n // 3))
@@ -578,7 +588,8 @@ def suite_conc(pid, tier, seed):
     # model-free exploration of the same programs on the real library: schedules the (correct) model
     # would never choose, e.g. a thread entering a critical section the model considers locked
     rounds = 18 if tier == "quick" else 90
-    free_cases = gen.conc_corpus() * 3 + gen.conc_fault_corpus() * 2 + [c for c in cases[len(corpus)::nsched]]
+    # model-free runs: the corpus, and one copy of (at most 400 of) the random programs, `rounds` times each
+    free_cases = gen.conc_corpus() * 3 + gen.conc_fault_corpus() * 2 + [c for c in cases[len(corpus)::nsched]][:400]
     free_cases = [c.replace("\n", f"_f{i}\n", 1) for i, c in enumerate(free_cases)]
     def go_free():
         d = run.scratch_dir()
